@@ -164,21 +164,37 @@ def openturns_sequence(algo: str, dim: int, n: int) -> np.ndarray:
 
 
 def run_history(hist) -> dict[str, Any]:
-    """Observations: the history in one pristine process, and every step alone in its own pristine process."""
-    steps = [{k: st[k] for k in ("space", "req", "mode", "lib")} for st in hist["steps"]]
-    obs = SERVER.run(steps)
-    effs = effective_requests(hist)
-    refs, urefs = [], []
-    for st, req_eff in zip(hist["steps"], effs):
-        one = {"space": st["space"], "req": req_eff, "lib": "R"}
-        refs.append(SERVER.run([dict(one, mode=st["mode"])])[0])
-        if req_eff["algo"] == "CustomDOE":
-            urefs.append(None)
-        elif st["mode"] == "unit":
-            urefs.append(refs[-1])
-        else:
-            urefs.append(SERVER.run([dict(one, mode="unit")])[0])
-    return {"obs": obs, "refs": refs, "urefs": urefs, "effs": effs}
+    return run_histories([hist])[0]
+
+
+def run_histories(hists) -> list[dict[str, Any]]:
+    """Observations: each history in one pristine process, and every step alone in its own pristine process
+    (twice when the unit samples are needed too).  One batch for the fork server."""
+    jobs: list[list[dict[str, Any]]] = []
+    plans = []
+    for hist in hists:
+        steps = [{k: st[k] for k in ("space", "req", "mode", "lib")} for st in hist["steps"]]
+        effs = effective_requests(hist)
+        plan = {"hist": len(jobs), "refs": [], "urefs": [], "effs": effs}
+        jobs.append(steps)
+        for st, req_eff in zip(hist["steps"], effs):
+            one = {"space": st["space"], "req": req_eff, "lib": "R"}
+            plan["refs"].append(len(jobs))
+            jobs.append([dict(one, mode=st["mode"])])
+            if req_eff["algo"] == "CustomDOE" or (req_eff["algo"] in OT_SEQ and st["mode"] != "unit"):
+                plan["urefs"].append(None)  # no unit design / the third-party sequence itself is the reference
+            elif st["mode"] == "unit":
+                plan["urefs"].append(plan["refs"][-1])
+            else:
+                plan["urefs"].append(len(jobs))
+                jobs.append([dict(one, mode="unit")])
+        plans.append(plan)
+    answers = SERVER.run_many(jobs)
+    out = []
+    for plan in plans:
+        out.append({"obs": answers[plan["hist"]], "refs": [answers[k][0] for k in plan["refs"]],
+                    "urefs": [None if k is None else answers[k][0] for k in plan["urefs"]], "effs": plan["effs"]})
+    return out
 
 
 def describe(hist, i: int) -> str:
@@ -292,10 +308,15 @@ def proc_line(hist, run) -> tuple[str, list[int]]:
     toks, idx = [], []
     for i, (st, req_eff, uref) in enumerate(zip(hist["steps"], run["effs"], run["urefs"])):
         algo = req_eff["algo"]
-        if algo == "CustomDOE" or uref is None or uref["exc"] is not None or run["obs"][i]["exc"] is not None:
+        if algo == "CustomDOE" or run["obs"][i]["exc"] is not None or (uref is not None and uref["exc"] is not None):
+            continue
+        if uref is None and algo not in OT_SEQ:
             continue
         aid = ids.setdefault(json.dumps([algo, req_eff["opts"]], sort_keys=True, default=str), len(ids))
-        rows = B.fmat(arr(uref["x"])) if len(uref["x"]) else []
+        if uref is None:  # the points of the third-party sequence itself
+            rows = B.fmat(openturns_sequence(algo, B.space_dim(st["space"]), req_eff["n"]))
+        else:
+            rows = B.fmat(arr(uref["x"])) if len(uref["x"]) else []
         seed = req_eff.get("seed")
         toks.append(f"src={source_of(algo)} algo={aid} dim={B.space_dim(st['space'])} n={req_eff['n']} "
                     f"seed={0 if seed is None else seed}" + (" | " + B.rows_str(rows) if rows else ""))
@@ -303,45 +324,58 @@ def proc_line(hist, run) -> tuple[str, list[int]]:
     return "proc || " + " || ".join(toks), idx
 
 
-def compare_model(hist, run, res) -> tuple[int, str] | None:
-    """First step on which the implementation and the Lean model (process, then pipeline) differ."""
-    line, idx = proc_line(hist, run)
-    if not idx:
-        return None
-    ans = common.run_lean_driver(B.PID, [line])[0]
-    parts = ans.split(" || ")
-    if ans == "bad-op" or len(parts) != len(idx):
-        return (idx[0], f"the model could not run the process history ({ans[:80]})")
-    doe_lines, meta = [], []
-    for i, part in zip(idx, parts):
-        st, o, req_eff = hist["steps"][i], run["obs"][i], run["effs"][i]
-        a = B.parse_answer(part)
-        U = B.parse_matrix(a.get("U", "[]"))
-        if st["mode"] == "unit":
-            msg = B.near(U, B.fmat(arr(o["x"])) if len(o["x"]) else [])
-            if msg:
-                return (i, f"unit samples differ from the model of the process: {msg}")
+def compare_models(cases, res) -> list[tuple[int, str] | None]:
+    """For every (history, run): the first step on which the implementation and the Lean model (process, then
+    pipeline) differ, or None.  Two batched driver calls for all the histories."""
+    proc = [proc_line(h, r) for h, r in cases]
+    with_steps = [k for k, (_, idx) in enumerate(proc) if idx]
+    answers = common.run_lean_driver(B.PID, [proc[k][0] for k in with_steps]) if with_steps else []
+    out: list[tuple[int, str] | None] = [None] * len(cases)
+    doe_lines: list[str] = []
+    meta: list[tuple[int, int, Any]] = []  # (case, step, model unit samples)
+    for k, ans in zip(with_steps, answers):
+        hist, run = cases[k]
+        idx = proc[k][1]
+        parts = ans.split(" || ")
+        if ans == "bad-op" or len(parts) != len(idx):
+            out[k] = (idx[0], f"the model could not run the process history ({ans[:80]})")
             continue
-        if st["mode"] == "exec":
-            msg = B.near(U, B.fmat(arr(o["us"])) if len(o["us"]) else [])
-            if msg:
-                return (i, f"lib.unit_samples differ from the model of the process: {msg}")
-        # the model's unit samples through the model of the pipeline
-        doe_lines.append(B.doe_line(st["space"], dict(req_eff), "exec" if st["mode"] == "exec" else "compute", U))
-        meta.append((i, U))
-    answers = common.run_lean_driver(B.PID, doe_lines) if doe_lines else []
-    for (i, U), ans2 in zip(meta, answers):
+        for i, part in zip(idx, parts):
+            st, o, req_eff = hist["steps"][i], run["obs"][i], run["effs"][i]
+            U = B.parse_matrix(B.parse_answer(part).get("U", "[]"))
+            if st["mode"] == "unit":
+                msg = B.near(U, B.fmat(arr(o["x"])) if len(o["x"]) else [])
+                if msg:
+                    out[k] = (i, f"unit samples differ from the model of the process: {msg}")
+                    break
+                res.traces_validated += 1
+                continue
+            if st["mode"] == "exec":
+                msg = B.near(U, B.fmat(arr(o["us"])) if len(o["us"]) else [])
+                if msg:
+                    out[k] = (i, f"lib.unit_samples differ from the model of the process: {msg}")
+                    break
+            # the model's unit samples through the model of the pipeline
+            doe_lines.append(B.doe_line(st["space"], dict(req_eff), "exec" if st["mode"] == "exec" else "compute", U))
+            meta.append((k, i, U))
+    answers2 = common.run_lean_driver(B.PID, doe_lines) if doe_lines else []
+    for (k, i, U), ans2 in zip(meta, answers2):
+        if out[k] is not None:
+            continue
+        hist, run = cases[k]
         st, o = hist["steps"][i], run["obs"][i]
         a = B.parse_answer(ans2)
         if a.get("res") != "ok":
-            return (i, f"the model of the pipeline answers {ans2[:60]} for a successful call")
-        if (a.get("int") == "1") != o["int_after"]:
-            return (i, f"integer-normalisation switch {o['int_after']} after the call, model {a.get('int')}")
-        msg = B.close_matrix(st["space"], B.parse_matrix(a["X"]), B.fmat(arr(o["x"])) if len(o["x"]) else [], U)
-        if msg:
-            return (i, f"samples differ from the model (process, then pipeline): {msg}")
-        res.traces_validated += 1
-    return None
+            out[k] = (i, f"the model of the pipeline answers {ans2[:60]} for a successful call")
+        elif (a.get("int") == "1") != o["int_after"]:
+            out[k] = (i, f"integer-normalisation switch {o['int_after']} after the call, model {a.get('int')}")
+        else:
+            msg = B.close_matrix(st["space"], B.parse_matrix(a["X"]), B.fmat(arr(o["x"])) if len(o["x"]) else [], U)
+            if msg:
+                out[k] = (i, f"samples differ from the model (process, then pipeline): {msg}")
+            else:
+                res.traces_validated += 1
+    return out
 
 
 # --------------------------------------------------------------------------- the stream
@@ -374,19 +408,19 @@ def count_history(res, hist) -> None:
 
 
 def check_histories(res, histories: list[dict[str, Any]]) -> None:
-    restarts = 0
-    for hist in histories:
-        try:
-            run = run_history(hist)
-        except FreshUnavailable as e:
-            res.count("prochist:skipped(fresh-process server unavailable)")
-            res.notes.append(f"process-history stream: case skipped, the fresh-process server was unavailable ({e})")
-            restarts += 1
-            if restarts > MAX_RESTARTS:
-                msg = "the fresh-process server of harness/c14_fresh.py is unavailable (infrastructure, not a verdict)"
-                raise RuntimeError(msg) from e
-            SERVER.failed = None
-            continue
+    cases = []
+    try:
+        cases = list(zip(histories, run_histories(histories)))
+    except FreshUnavailable as e:
+        res.count("prochist:skipped(fresh-process server unavailable)", len(histories))
+        res.notes.append(f"process-history stream: {len(histories)} cases skipped, the fresh-process server was unavailable ({e})")
+        SERVER.restarts += 1
+        if SERVER.restarts > MAX_RESTARTS:
+            msg = "the fresh-process server of harness/c14_fresh.py is unavailable (infrastructure, not a verdict)"
+            raise RuntimeError(msg) from e
+        SERVER.failed = None
+    mismatches = compare_models(cases, res)
+    for (hist, run), mism in zip(cases, mismatches):
         res.evaluations += 1
         count_history(res, hist)
         if len(hist["steps"]) >= 2:
@@ -399,10 +433,12 @@ def check_histories(res, histories: list[dict[str, Any]]) -> None:
             if key in seen:
                 continue
             seen.add(key)
-            small, j = shrink_history(hist, i, key)
+            try:
+                small, j = shrink_history(hist, i, key)
+            except FreshUnavailable:
+                small, j = hist, i
             res.violate("oracle", key, msg, {"process_history": small, "failing_step": j,
                                              "failing_step_of_the_original_history": i})
-        mism = compare_model(hist, run, res)
         if mism is None:
             continue
         res.disagreements += 1
@@ -426,11 +462,11 @@ def prochist_stream(ctx, res) -> None:
             res.count("prochist-generator-discarded")
     t0 = time.time()
     try:
-        for i in range(0, len(histories), 8):
+        for i in range(0, len(histories), 22):
             if time.time() > ctx.deadline:
                 res.notes.append("deadline reached in the process-history stream")
                 break
-            check_histories(res, histories[i:i + 8])
+            check_histories(res, histories[i:i + 22])
     finally:
         res.notes.append(f"process-history stream: {SERVER.jobs} pristine child processes, {time.time() - t0:.0f} s")
         SERVER.stop()
@@ -454,7 +490,7 @@ def replay_history(rp) -> int:
         print(f"  step {i} impl :", run["obs"][i].get("x", run["obs"][i]["exc"]) if run["obs"][i]["exc"] else run["obs"][i]["x"][:3])
         print(f"  step {i} alone:", run["refs"][i]["x"][:3] if run["refs"][i]["exc"] is None else run["refs"][i]["exc"])
     res = common.Result(B.PID)
-    print("correspondence:", compare_model(hist, run, res) or "agrees")
+    print("correspondence:", compare_models([(hist, run)], res)[0] or "agrees")
     SERVER.stop()
     for i, k, m in bad:
         print("ORACLE FAILS:", k, m)
